@@ -10,6 +10,7 @@ import random
 from ..core import check, Violation
 
 ID = "C11"
+IMPORTS = ['rig.geometry', 'rig.place_and_route.route.utils']
 LEVEL = "exploration"
 TECHNIQUE = ("runtime post-condition monitor on return values vs BFS "
              "reference model, exhaustive enumeration of torus sizes/offsets")
